@@ -10,7 +10,10 @@ Stage C: lockstep correspondence on real TunnelCommunity nodes (1 originator, re
          scheduled removals).
 Oracle : (independent of the model) payloads tagged with their circuit leave only through that circuit's exit
          socket and come back only to that circuit of the originator, under every random interleaving and
-         reordering of deliveries; forged cells (unknown id, known id with foreign body) change no table entry;
+         reordering of deliveries; forged cells (unknown id, known id with foreign body) change no table entry; well-formed cells of
+         every type under an id KNOWN at the receiver (own circuit / relay / exit) x plaintext flag x relay_early x sender
+         (previous hop, same IP other port, unrelated), not made with the circuit's keys, are neither delivered nor answered
+         and change neither tables nor request caches;
          a create under an id that is live in any table (relay id, exit id - also after the 60 s cache expired -,
          own circuit id) replaces nothing and the old circuit keeps working; a destroy removes an entry iff it is
          correctly signed by the neighbour stored for that id (matrix id x sender x signature x table role); when a
@@ -896,6 +899,73 @@ async def forged_cells(ctx, tn, book, r, circuits):
     return n
 
 
+async def forged_known_id_matrix(ctx, tn, book, r, circuits):
+    """well-formed cells of every type naming an id KNOWN at the receiver (own circuit / relay / exit), with the plaintext
+    flag set or not, relay_early set or not, sent by the previous hop's address, its IP with another port, or an
+    unrelated host - never encrypted with the circuit's keys.  Nothing may be delivered, answered or changed."""
+    from ipv8.messaging.anonymization.payload import (CreatedPayload, DataPayload, ExtendedPayload, ExtendPayload, PingPayload,
+                                                      PongPayload, TestRequestPayload)
+    n = 0
+    o = tn.origin
+    ser = o.serializer
+    att = next(ov for nm, ov in tn.nodes.items() if nm.startswith("relay"))
+    _, pub = att.crypto.generate_diffie_secret()
+    akey = att.my_peer.public_key.key_to_bin()
+    for c in circuits:
+        path = c04.path_of(tn, c)
+        if not path or path[-1][2] != "exit":
+            continue
+        entries = []
+        prev = o
+        for nd, cid, role in path:
+            entries.append((nd, cid, role, prev))
+            prev = nd
+        entries.append((o, c.circuit_id, "circuit", path[0][0]))
+        for node, cid, role, prev in entries:
+            pa = tuple(prev.my_peer.address)
+            senders = (("previous-hop", pa), ("same-ip-other-port", (pa[0], 4321)), ("unrelated", ("203.0.113.9", 999)))
+            kinds = (("data", DataPayload(cid, ("7.7.7.7", 7), ("6.6.6.6", 6), b"dINJECTEDe")), ("ping", PingPayload(cid, 99)),
+                     ("pong", PongPayload(cid, 99)), ("extend", ExtendPayload(cid, 7, akey, pub, att.my_peer.address)),
+                     ("extended", ExtendedPayload(cid, 7, pub, bytes(32), b"x" * 30)),
+                     ("created", CreatedPayload(cid, 7, pub, bytes(32), b"x" * 30)),
+                     ("test-request", TestRequestPayload(cid, 5, 20, b"abc")))
+            for kname, pl in kinds:
+                body = bytes([pl.msg_id]) + ser.pack_serializable(pl)[4:]
+                for plain in (1, 0):
+                    for early in (0, 1):
+                        sname, src = senders[n % 3] if ctx.quick else (None, None)
+                        for sname, src in ([(sname, src)] if ctx.quick else senders):
+                            pkt = tn.prefix() + b"\x00" + cid.to_bytes(4, "big") + bytes([plain, early]) + body
+                            meta = {"kind": "forged-known-id", "cell": kname, "plaintext": plain, "relay_early": early, "role": role, "sender": sname,
+                                    "what": "well-formed %s cell (plaintext flag %d, relay_early %d) under the known %s id, from %s, not made with the circuit's keys" % (
+                                        kname, plain, early, role, sname)}
+                            before = entry_ids(tn)
+                            caches = {nm: set(ov.request_cache._identifiers) for nm, ov in tn.nodes.items()}
+                            evs = [await tn.event(src, tuple(node.my_peer.address), pkt)]
+                            await tn.drain_c(evs)
+                            book.add_all(evs, meta)
+                            n += 1
+                            ctx.count(("forged-known-id", kname, plain, early, role, sname), nontrivial=True)
+                            problems = []
+                            if entry_ids(tn) != before:
+                                problems.append("a routing table changed")
+                            if caches != {nm: set(ov.request_cache._identifiers) for nm, ov in tn.nodes.items()}:
+                                problems.append("a request cache changed")
+                            dl = [d for d in c04.deliveries(evs) if d[0] in ("exit", "raw", "reinject")]
+                            if dl:
+                                problems.append("delivered %s" % [d[0] for d in dl])
+                            hs = [rec[1] for e in evs for rec in e["records"] if rec[0] == "handler"]
+                            if [h for h in hs if not (plain and h in (2, 3))]:
+                                problems.append("cell handlers entered %s" % hs)
+                            sends = [rec for e in evs for rec in e["records"] if rec[0] == "send"]
+                            if sends:
+                                problems.append("%d datagram(s) sent in answer (to %s)" % (len(sends), sorted({x[2] for x in sends})))
+                            if problems:
+                                ctx.violation("forged-known-id/executed", "%s: %s" % (meta["what"], "; ".join(problems)), meta)
+                                return n
+    return n
+
+
 def evaluate(ctx, tn, book, label):
     cases = book.cases
     if not cases:
@@ -968,6 +1038,7 @@ async def _run(ctx, loop):
                 if rounds % 25 == 0:
                     await forged_cells(ctx, tn, book, r, circuits[:2])
             stats["forged_cells"] = stats.get("forged_cells", 0) + await forged_cells(ctx, tn, book, r, circuits)
+            stats["forged_known_id"] = stats.get("forged_known_id", 0) + await forged_known_id_matrix(ctx, tn, book, r, circuits)
             if book.cases:
                 ctx.sample({"lockstep_case": book.cases[len(book.cases) // 2][0][:300], "meta": book.cases[len(book.cases) // 2][2]})
         finally:
@@ -1065,6 +1136,10 @@ async def replay_case(case, loop):
         kind = case.get("kind")
         if kind == "create-in-use":
             await create_in_use(ctx, tn, loop, book, r)
+        elif kind == "forged-known-id":
+            cs = await build(tn, [1, 2, 3])
+            await transfer_check(ctx, tn, book, r, cs, case, rounds=8, pick=None)
+            await forged_known_id_matrix(ctx, tn, book, r, cs)
         elif kind == "create-race":
             await create_race(ctx, tn, loop, book, r)
         elif kind == "stale-created":
@@ -1132,7 +1207,8 @@ def run(ctx):
     in_loop(lambda loop: _run(ctx, loop))
     ctx.coverage["rule"] = ("quick: 2 networks (3-4 relays, 2 exits) x 3-4 concurrent circuits of 1..3 hops built under observation, 100 rounds each of "
                             "tagged data both ways on all circuits at once with deliveries in random order (thorough: 6 networks, 4-6 circuits, 300 rounds); "
-                            "forged cells (unknown id / garbage / other circuit's body / outsider keys) at every entry of every circuit; creates under live "
+                            "forged cells (unknown id / garbage / other circuit's body / outsider keys) at every entry of every circuit; well-formed cells of 7 types x "
+                            "plaintext flag x relay_early x 3 senders under every known id of every circuit; creates under live "
                             "relay-in / relay-out / exit / own-circuit ids within and after the 60 s cache; same-id creates dispatched back-to-back with a genuine create "
                             "(first hop / extend hop x both orders); re-extended circuit + stale / unknown / duplicate created; 10 (thorough 60) rounds of 2-3 circuits of different originators at one "
                             "exit with delayed transport opening interleaved with first packets + outside replies; destroy matrix {own, other, unknown id} x {adjacent, "
